@@ -98,7 +98,7 @@ def check_refusal(rep, mod):
         ctx = contracts.Ctx()
         summ, _ = contracts.wrapper_summaries(mod, ctx)
         summ.pop(mod.find(SIG_INV), None)
-        I = Interp(mod, summ, {'summ_re': [(re.compile(r'std::(basic_)?ostream|operator<<'), lambda I_, a, i: a[0])]})
+        I = Interp(mod, summ, {'summ_re': [(re.compile(r'^_ZStls|^_ZNSolsE|^_ZNSo'), lambda I_, a, i: a[0])]})
         rin = Region('in1', 'param', extent=8, elem='field')
         rout = Region('result', 'param', extent=8, elem='field')
         I.mem[(rin, 0)] = (rep_val, 8)
@@ -157,7 +157,7 @@ def check_inv_invariant(rep, mod):
             return Poly.var('Q%d' % qn[0])
         return None
     opts = {'decide': decide, 'symbolic_binop': symbinop,
-            'summ_re': [(re.compile(r'std::(basic_)?ostream|operator<<'), lambda I_, a, i: a[0])]}
+            'summ_re': [(re.compile(r'^_ZStls|^_ZNSolsE|^_ZNSo'), lambda I_, a, i: a[0])]}
     I = Interp(mod, summ, opts)
     rin = Region('in1', 'param', extent=8, elem='field')
     rout = Region('result', 'param', extent=8, elem='field')
